@@ -182,7 +182,7 @@ func (c *Ctx) c16Identity(pe *pluginEnv, u uiCfg, kind string, out []byte, hdr [
 }
 
 func checkC16(c *Ctx) {
-	c.rule = "a scripted plugin executable on a private PATH plays a byte script and records what it receives. ALL conversations of <= 2 (quick) / 3 (thorough) messages over ~28 message variants per machine (each command valid, wrong arity, index 1/-0/+0/00/x, empty body, 100-byte body, repeated; unknown commands; UI commands msg/request-secret/request-public/confirm with 0-3 arguments and bad base64; malformed framing; end of output at every point), + random longer ones, with all UI callbacks present; every UI command x every combination of {absent, failing, answering} callbacks. Compared: the bytes the client sent (grease masked) and the result class/payload. distinct_nontrivial = distinct (machine, UI, script) cases."
+	c.rule = "a scripted plugin executable on a private PATH plays a byte script and records what it receives. ALL conversations of <= 2 (quick) / 3 (thorough) messages over ~28 message variants per machine (each command valid, wrong arity, index 1/-1/-0/+0/00/x, error stanzas naming a stanza index 0/-1/99, empty body, 100-byte body, repeated; unknown commands; UI commands msg/request-secret/request-public/confirm with 0-3 arguments and bad base64; malformed framing; end of output at every point), + random longer ones, with all UI callbacks present; every UI command x every combination of {absent, failing, answering} callbacks. Compared: the bytes the client sent (grease masked) and the result class/payload. distinct_nontrivial = distinct (machine, UI, script) cases."
 	pe := setupPluginEnv()
 	defer pe.close()
 	body48 := strings.Repeat("QUJD", 16) + "\n\n"
@@ -195,6 +195,10 @@ func checkC16(c *Ctx) {
 		"rs-idx-plus0":   "-> recipient-stanza +0 X25519 abc\nQUJD\n",
 		"rs-idx-00":      "-> recipient-stanza 00 X25519 abc\nQUJD\n",
 		"rs-idx-x":       "-> recipient-stanza x X25519 abc\nQUJD\n",
+		"rs-idx-neg1":    "-> recipient-stanza -1 X25519 abc\nQUJD\n",
+		"error-stanza":   "-> error stanza 0 0\nYm9vbQ\n",
+		"error-stanza-n": "-> error stanza 0 -1\nYm9vbQ\n",
+		"error-stanza-b": "-> error stanza 0 99\nYm9vbQ\n",
 		"rs-idx-big":     "-> recipient-stanza 99999999999999999999 X25519 abc\nQUJD\n",
 		"rs-one-arg":     "-> recipient-stanza 0\n\n",
 		"rs-no-arg":      "-> recipient-stanza\n\n",
@@ -225,7 +229,7 @@ func checkC16(c *Ctx) {
 		}
 	}
 	for k, v := range map[string]string{
-		"fk-ok": "-> file-key 0\nQUJDREVGQUJDREVGQUJDRA\n", "fk-empty": "-> file-key 0\n\n", "fk-idx1": "-> file-key 1\nQUJD\n", "fk-idx-neg0": "-> file-key -0\nQUJD\n",
+		"fk-ok": "-> file-key 0\nQUJDREVGQUJDREVGQUJDRA\n", "fk-empty": "-> file-key 0\n\n", "fk-idx1": "-> file-key 1\nQUJD\n", "fk-idx-neg0": "-> file-key -0\nQUJD\n", "fk-idx-neg1": "-> file-key -1\nQUJDREVGQUJDREVGQUJDRA\n",
 		"fk-idx-00": "-> file-key 00\nQUJD\n", "fk-idx-x": "-> file-key x\nQUJD\n", "fk-two-args": "-> file-key 0 1\nQUJD\n", "fk-no-arg": "-> file-key\nQUJD\n", "fk-other": "-> file-key 0\nWFhY\n",
 	} {
 		iAlpha[k] = v
